@@ -65,3 +65,23 @@ Proof.
   assert (B : (0 < eff_maxAttempts o)%Z) by (apply dflt_pos; reflexivity).
   split; lia.
 Qed.
+
+(* an acknowledgement that arrives within WriteTimeout (whatever ReadTimeout is) is seen as
+   such and ends the retry loop at once; one that arrives later is a lost acknowledgement *)
+Lemma ack_within_write_timeout : forall o delay cfg n,
+  (delay < eff_writeTimeoutMs o)%Z ->
+  timed_reaction o delay = AppliedAcked /\
+  r_seen (timed_reaction o delay) = None /\
+  after_attempt cfg n (r_seen (timed_reaction o delay)) = PFinish None.
+Proof.
+  intros o delay cfg n H. unfold timed_reaction, produce_deadline_ms.
+  apply Z.ltb_lt in H. rewrite H. simpl. auto.
+Qed.
+
+Lemma ack_after_write_timeout : forall o delay,
+  (eff_writeTimeoutMs o <= delay)%Z ->
+  r_applied (timed_reaction o delay) = true /\ r_seen (timed_reaction o delay) = Some deadline_err.
+Proof.
+  intros o delay H. unfold timed_reaction, produce_deadline_ms.
+  apply Z.ltb_ge in H. rewrite H. simpl. auto.
+Qed.
